@@ -1325,7 +1325,7 @@ func TestCheck(t *testing.T) {
 			"Family-A datasets get every range × predicates {none, a=x, _field=f0, a!=x} and group-by [a], group-by [], group none × all 8 aggregate settings × the group ranges. quick = 336 / 132 requests per B / A dataset, thorough = 3773 / 468. " +
 			"Family C (shard-group presence patterns): G 1h shard groups (quick 3; thorough 3 and 4), two slots per group (first and last nanosecond of the group: adjacent nanoseconds across every boundary); a dataset assigns every pool series a subset of the G groups in which it is present (both slots), field layout fixed per series (m0{a=x}: f0+f1; m0{a=y,b=z}: f0; m1{a=x,b=z}: f1; m1{b=w}: f0+f1), so a group skipped by a series is, for that series, a missing shard (nobody wrote there) / a shard that does not know the field or the measurement (nil cursor) / a shard that knows the field through the other series of the measurement (non-nil, immediately empty cursor; float in m0, integer in m1); this includes present-absent-present, absent-present-absent, absent-absent-present, … for every series. " +
 			"'mirror' = every pair (a,b) of group subsets, not both empty: the two-field series m0{a=x}, m1{b=w} present in a, the one-field series m0{a=y,b=z}, m1{a=x,b=z} present in b ((2^G)^2-1 vectors), plus, where a∪b leaves a group unwritten before a written one, m0 with (a,b) and m1{a=x,b=z} alone in every group (24 / 135 vectors for G = 3 / 4); 'wide' = mirror ∪ every vector of four subsets in which m0{a=y,b=z} or m1{b=w} is absent everywhere. quick: mirror over 3 groups, layout mixed = 87 datasets; thorough: wide over 3 groups, layout mixed (1008) + mirror over 3 groups × layouts cache,tsm2,overwrite (261) + mirror over 4 groups, layout mixed (390) = 1659 datasets. " +
-			"Requests per family-C dataset: cut points MinInt64, one cut inside every group (first slot+1, i.e. between the two points of the group), MaxInt64 (thorough: + every group boundary + the last nanosecond of every group); ReadFilter for every range [s,e) over the cuts (quick 10; thorough 45 / 78 for 3 / 4 groups) × predicates {none, a=x, _field=f0, a!=x} (thorough + _field=f1); ReadGroup for group-by [a], group-by [_measurement,_field], group none (thorough + group-by []) × all 8 aggregate settings × ranges {full, inside first group → inside last group, inside first group → MaxInt64} (thorough + 2) × predicate none (thorough: + a=x without aggregate). quick = 112 requests per C dataset, thorough = 405 / 570 (3 / 4 groups). All reads are ascending (the storage read API has no descending mode). " +
+			"Requests per family-C dataset: cut points MinInt64, one cut inside every group (first slot+1, i.e. between the two points of the group), MaxInt64 (thorough: + every group boundary + the last nanosecond of every group); ReadFilter for every range [s,e) over the cuts (quick 10; thorough 45 / 78 for 3 / 4 groups) × predicates {none, a=x, _field=f0, a!=x} (thorough + _field=f1); ReadGroup for group-by [a], group-by [_measurement,_field], group none (thorough + group-by []) × all 8 aggregate settings × ranges {full, inside first group → inside last group, inside first group → MaxInt64} (thorough + 2) × predicate none (thorough: + a=x without aggregate). quick = 112 requests per C dataset, thorough = 405 / 570 (3 / 4 groups). The read API has no order parameter: all reads iterate the shards in ascending time order, except ReadGroup with aggregate last, which the store serves with descending cursors (shards in reverse order; the skipped-shard patterns are thereby also met from the other side). " +
 			"Visiting order: family A, then families B and C in alternating blocks of 16 datasets, each family simplest-first. " +
 			"Oracle: reference model of the written points (see file header). non-trivial = requests for which the model expects ≥1 series with points (distinct by construction).",
 		Assumptions: []string{
